@@ -91,7 +91,8 @@ Section Reassembly.
     (forall b, bo = Some b -> total <= len b \/ len b <= k * c + len (blk_slice body szx k)) ->
     exists b', blk_build_body junk bo (blk_slice body szx k) (k * c) total = Some b' /\
       rs_good r' b' /\ k * c + len (blk_slice body szx k) <= len b' /\
-      (forall b, bo = Some b -> len b <= len b' /\ (total <= len b -> len b' = len b)) /\
+      (forall b, bo = Some b -> len b <= len b' /\ (total <= len b -> len b' = len b) /\
+         (len b < total -> len b' = k * c + len (blk_slice body szx k))) /\
       (bo = None -> len b' = total).
   Proof.
     intros Hk Hm Hg Hn Ht Hb. pose proof rs_c_pos as Hc.
@@ -108,10 +109,10 @@ Section Reassembly.
       + destruct Mi as [Mi|Mi]; [congruence|].
         destruct bo as [b|].
         * destruct (Hg b eq_refl i Hi Mi) as (G1 & G2).
-          destruct (E3 b eq_refl) as (F1 & F2 & F3). split; [lia|].
+          destruct (E3 b eq_refl) as (F1 & F2 & F2' & F3). split; [lia|].
           rewrite F3; [exact G2|lia|]. intros X. apply Nk. apply rs_idx_block; lia.
         * rewrite (Hn eq_refl) in Mi. destruct Mi.
-    - intros b Eb. destruct (E3 b Eb) as (F1 & F2 & F3). split; assumption.
+    - intros b Eb. destruct (E3 b Eb) as (F1 & F2 & F2' & F3). split; [assumption|split; assumption].
   Qed.
 
   (* all blocks recorded and all good: the first L bytes are the body *)
@@ -128,15 +129,19 @@ Section Reassembly.
   Qed.
 
   (* ---------------------------------------------------------------- server (Block1) *)
-  Definition rs_srv_inv (st : option blk_rcv) (seen : list Z) : Prop :=
+  Definition rs_end (j : Z) : Z := j * c + len (blk_slice body szx j).
+
+  Definition rs_srv_inv (size : option Z) (st : option blk_rcv) (seen : list Z) : Prop :=
     match st with
     | None => seen = []
     | Some s =>
         blk_inv (br_rec s) /\ br_rec s <> [] /\
         (forall j, blk_memP (br_rec s) j <-> In j seen) /\
         (forall j, In j seen -> 0 <= j < K) /\
-        br_total s = L /\
-        exists b, br_body s = Some b /\ len b = L /\ rs_good (br_rec s) b
+        (size = Some L -> br_total s = L) /\ br_total s <= L /\
+        (forall j, blk_memP (br_rec s) j -> rs_end j <= br_total s) /\
+        (br_nomore s = true <-> blk_memP (br_rec s) (K - 1)) /\
+        exists b, br_body s = Some b /\ len b = br_total s /\ rs_good (br_rec s) b
     end.
 
   Lemma rs_all_in_iff r : blk_inv r -> r <> [] -> (forall j, blk_memP r j -> 0 <= j < K) ->
@@ -154,18 +159,25 @@ Section Reassembly.
     pose proof (blk_update_mem r k Hi Hk [] H k) as M. cbn in M. tauto.
   Qed.
 
-  Lemma rs_srv_step st seen k :
-    rs_srv_inv st seen -> 0 <= k < K ->
-    let '(st', o) := blk_srv_step junk st (blk_arr_of body szx (Some L) k) in
+  Lemma rs_end_last : rs_end (K - 1) = L.
+  Proof.
+    destruct rs_K_bounds as (B & K1). unfold rs_end.
+    destruct (blk_slice_len_final body szx Hszx Hbody) as (_ & E). exact E.
+  Qed.
+
+  Lemma rs_srv_step size st seen k :
+    size = None \/ size = Some L ->
+    rs_srv_inv size st seen -> 0 <= k < K ->
+    let '(st', o) := blk_srv_step junk st (blk_arr_of body szx size k) in
     match o with
     | BoDeliver d => d = body /\ st' = None /\ (forall j, 0 <= j < K -> In j (k :: seen))
     | BoPass => K = 1 /\ blk_slice body szx k = body /\ st' = st
-    | BoContinue => rs_srv_inv st' (k :: seen) /\ ~ (forall j, 0 <= j < K -> In j (k :: seen))
+    | BoContinue => rs_srv_inv size st' (k :: seen) /\ ~ (forall j, 0 <= j < K -> In j (k :: seen))
     | BoFail => st' = None /\ exists s, st = Some s /\ blk_update (br_rec s) k = None
     | BoReject => False
     end.
   Proof.
-    intros Hinv Hk. pose proof rs_c_pos as Hc. destruct rs_K_bounds as (B & K1).
+    intros Hsz Hinv Hk. pose proof rs_c_pos as Hc. destruct rs_K_bounds as (B & K1).
     destruct (rs_slice_len k Hk) as (S1 & S2 & S3 & S4 & S5).
     unfold blk_srv_step. cbn [blk_arr_of ba_num ba_m ba_szx ba_size ba_data].
     fold c. set (d := blk_slice body szx k) in *.
@@ -181,86 +193,150 @@ Section Reassembly.
     { unfold m in Erej. destruct (blk_more body szx k) eqn:Mm; [|lia].
       specialize (S4 eq_refl). lia. }
     destruct (0 <? len d) eqn:Epos; [|lia].
+    assert (Hm1 : (m =? 1) = true -> k <> K - 1).
+    { intros Em Ek. unfold m in Em. destruct (blk_more body szx k) eqn:Mm; [|lia].
+      apply (blk_more_iff body szx k Hszx Hk) in Mm. fold K in Mm. lia. }
+    assert (Hm0 : (m =? 1) = false -> k = K - 1).
+    { intros Em. unfold m in Em. destruct (blk_more body szx k) eqn:Mm; [lia|].
+      destruct (S5 eq_refl). assumption. }
+    assert (Hend : rs_end k = k * c + len d) by reflexivity.
     (* the lg_srcv in use *)
     set (s0 := match st with
                | Some s => s
-               | None => {| br_rec := []; br_total := blk_opt_z (Some L); br_body := None |}
+               | None => {| br_rec := []; br_total := blk_opt_z size; br_body := None;
+                            br_nomore := false |}
                end).
     assert (I0 : blk_inv (br_rec s0) /\ (forall j, blk_memP (br_rec s0) j <-> In j seen) /\
-                 (forall j, In j seen -> 0 <= j < K) /\ br_total s0 = L /\
-                 (forall b, br_body s0 = Some b -> len b = L /\ rs_good (br_rec s0) b) /\
+                 (forall j, In j seen -> 0 <= j < K) /\
+                 (size = Some L -> br_total s0 = L) /\ 0 <= br_total s0 <= L /\
+                 (forall j, blk_memP (br_rec s0) j -> rs_end j <= br_total s0) /\
+                 (br_nomore s0 = true <-> blk_memP (br_rec s0) (K - 1)) /\
+                 (forall b, br_body s0 = Some b -> len b = br_total s0 /\ rs_good (br_rec s0) b) /\
                  (br_body s0 = None -> br_rec s0 = []) /\
                  (br_rec s0 <> [] -> exists b, br_body s0 = Some b)).
     { unfold s0. destruct st as [s|]; cbn [rs_srv_inv] in Hinv.
-      - destruct Hinv as (A1 & A2 & A3 & A4 & A5 & b & A6 & A7 & A8).
+      - destruct Hinv as (A1 & A2 & A3 & A4 & A5 & A5' & A5'' & A5n & b & A6 & A7 & A8).
         split; [exact A1|]. split; [exact A3|]. split; [exact A4|]. split; [exact A5|].
+        split; [pose proof (len_nonneg b); lia|]. split; [exact A5''|]. split; [exact A5n|].
         split; [|split].
         + intros b0 Eb. rewrite A6 in Eb. inversion Eb; subst. split; assumption.
         + intros X. rewrite A6 in X. discriminate.
         + intros _. exists b. exact A6.
-      - subst seen. cbn [br_rec br_total br_body blk_opt_z].
+      - subst seen. cbn [br_rec br_total br_body br_nomore].
         split. { split; [exact I|]. cbn. unfold blk_rblock_cnt. lia. }
         split. { intros j. cbn. tauto. }
         split. { intros j []. }
-        split; [reflexivity|]. split; [discriminate|]. split; [reflexivity|]. intros X. congruence. }
-    destruct I0 as (J1 & J2 & J3 & J4 & J5 & J6 & J7).
+        split. { intros ->. reflexivity. }
+        split. { destruct Hsz as [->| ->]; cbn [blk_opt_z]; unfold L in *; lia. }
+        split. { intros j []. }
+        split. { cbn. split; [discriminate|tauto]. }
+        split; [discriminate|]. split; [reflexivity|]. intros X. congruence. }
+    destruct I0 as (J1 & J2 & J3 & J4 & J4' & J4e & J4n & J5 & J6 & J7).
     destruct (blk_check_received (br_rec s0) k) eqn:Erecv.
     - (* duplicate of a recorded block: nothing changes *)
-      cbn [andb]. rewrite J4.
+      cbn [andb].
       apply (blk_check_received_spec _ _ J1) in Erecv. apply blk_abs_mem in Erecv.
       assert (Hne : br_rec s0 <> []) by (intros X; rewrite X in Erecv; destruct Erecv).
       destruct (J7 Hne) as (b & Eb). destruct (J5 b Eb) as (Lb & Gb).
       assert (Hr : forall j, blk_memP (br_rec s0) j -> 0 <= j < K) by (intros j Hj; apply J3, J2, Hj).
-      destruct (blk_check_all_in (br_rec s0) ((L + c - 1) / c)) eqn:Eall.
-      + pose proof (proj1 (rs_all_in_iff _ J1 Hne Hr) Eall) as Eall'. clear Eall. rename Eall' into Eall. rewrite Eb.
-        split; [apply (rs_complete _ _ Gb Eall)|]. split; [reflexivity|].
-        intros j Hj. right. apply J2. apply Eall. exact Hj.
+      assert (Hlast : blk_memP (br_rec s0) (K - 1) -> br_total s0 = L).
+      { intros X. apply J4e in X. rewrite rs_end_last in X. lia. }
+      set (allin := blk_check_all_in (br_rec s0) ((br_total s0 + c - 1) / c)).
+      destruct (if m =? 1 then br_nomore s0 && allin else allin) eqn:Ecomp.
+      + assert (Et : br_total s0 = L /\ allin = true).
+        { destruct (m =? 1) eqn:Em.
+          - apply andb_true_iff in Ecomp. destruct Ecomp as (N1 & N2). split; [|exact N2].
+            apply Hlast, J4n, N1.
+          - split; [|exact Ecomp]. apply Hlast. rewrite <- (Hm0 eq_refl). exact Erecv. }
+        destruct Et as (Et & Eall). unfold allin in Eall. rewrite Et in Eall.
+        pose proof (proj1 (rs_all_in_iff _ J1 Hne Hr) Eall) as Eall'. rewrite Eb, Et.
+        split; [apply (rs_complete _ _ Gb Eall')|]. split; [reflexivity|].
+        intros j Hj. right. apply J2. apply Eall'. exact Hj.
       + split.
-        2:{ intros Hall. assert (blk_check_all_in (br_rec s0) ((L + c - 1) / c) = true); [|congruence].
-            apply (rs_all_in_iff _ J1 Hne Hr). intros j Hj. apply J2.
-            destruct (Hall j Hj) as [<-|X]; [apply J2; exact Erecv|exact X]. }
-        cbn [rs_srv_inv br_rec br_total br_body].
+        2:{ intros Hall.
+            assert (Hall' : forall j, 0 <= j < K -> blk_memP (br_rec s0) j).
+            { intros j Hj. apply J2. destruct (Hall j Hj) as [<-|X]; [apply J2; exact Erecv|exact X]. }
+            assert (Et : br_total s0 = L) by (apply Hlast, Hall'; lia).
+            assert (Eall : allin = true).
+            { unfold allin. rewrite Et. apply (rs_all_in_iff _ J1 Hne Hr). exact Hall'. }
+            rewrite Eall in Ecomp. destruct (m =? 1) eqn:Em; [|discriminate].
+            rewrite andb_true_r in Ecomp.
+            assert (br_nomore s0 = true) by (apply J4n, Hall'; lia). congruence. }
+        cbn [rs_srv_inv br_rec br_total br_body br_nomore].
         split; [exact J1|]. split; [exact Hne|]. split.
         { intros j. rewrite J2. cbn [In]. split; [tauto|]. intros [<-|X]; [apply J2; exact Erecv|exact X]. }
         split. { intros j [<-|X]; [lia|apply J3; exact X]. }
-        split; [reflexivity|]. exists b. auto.
+        split; [exact J4|]. split; [lia|]. split; [exact J4e|]. split.
+        { destruct (m =? 1) eqn:Em; [exact J4n|]. rewrite <- (Hm0 eq_refl).
+          split; [intros _; exact Erecv|reflexivity]. }
+        exists b. auto.
     - destruct (blk_update (br_rec s0) k) as [r'|] eqn:Eupd.
       2:{ split; [reflexivity|]. destruct st as [s|].
           - exists s. split; [reflexivity|exact Eupd].
           - exfalso. unfold s0 in Eupd. cbn [br_rec] in Eupd. vm_compute in Eupd. discriminate. }
-      cbn [andb]. rewrite J4.
-      assert (Et : (if L <? k * c + len d then k * c + len d else L) = L)
-        by (destruct (L <? k * c + len d) eqn:X; lia).
-      rewrite Et.
+      cbn [andb].
+      set (total' := if br_total s0 <? k * c + len d then k * c + len d else br_total s0).
+      assert (Ht' : br_total s0 <= total' <= L /\ k * c + len d <= total' /\
+                    (size = Some L -> total' = L) /\
+                    (total' = br_total s0 \/ (br_total s0 < total' /\ total' = k * c + len d))).
+      { unfold total'. destruct (br_total s0 <? k * c + len d) eqn:X.
+        - split; [lia|]. split; [lia|]. split; [intros Z0; specialize (J4 Z0); lia|]. right. lia.
+        - split; [lia|]. split; [lia|]. split; [exact J4|]. left. reflexivity. }
+      destruct Ht' as (T1 & T2 & T3 & T4).
+      assert (K0 : 0 <= k) by lia.
       assert (Hmem : forall j, blk_memP r' j <-> j = k \/ blk_memP (br_rec s0) j).
-      { intros j. rewrite <- !blk_abs_mem. assert (K0 : 0 <= k) by lia. apply (blk_update_mem _ _ J1 K0 _ Eupd). }
-      assert (Hi' : blk_inv r') by (assert (K0 : 0 <= k) by lia; apply (blk_update_inv _ _ J1 K0 _ Eupd)).
+      { intros j. rewrite <- !blk_abs_mem. apply (blk_update_mem _ _ J1 K0 _ Eupd). }
+      assert (Hi' : blk_inv r') by (apply (blk_update_inv _ _ J1 K0 _ Eupd)).
       assert (Hne' : r' <> []) by (apply (rs_update_nonempty _ _ _ Eupd J1); lia).
-      destruct (rs_store (br_rec s0) r' (br_body s0) k L Hk Hmem
+      destruct (rs_store (br_rec s0) r' (br_body s0) k total' Hk Hmem
                   ltac:(intros b Eb; apply J5; exact Eb) J6 ltac:(fold d; lia)
-                  ltac:(intros b Eb; left; destruct (J5 b Eb); lia))
+                  ltac:(intros b Eb; fold d; destruct (J5 b Eb) as (X & _); lia))
         as (b' & Eb' & Gb' & Lb' & Mb' & Nb').
       fold d in Eb'. rewrite Eb'.
-      assert (Lb : len b' = L).
+      assert (Lb : len b' = total').
       { destruct (br_body s0) as [b|] eqn:Eb.
-        - destruct (Mb' b eq_refl) as (_ & X). destruct (J5 b eq_refl) as (Y & _). rewrite X; lia.
+        - destruct (Mb' b eq_refl) as (_ & X & Y). destruct (J5 b eq_refl) as (Z0 & _).
+          fold d in Y. destruct T4 as [T4|(T4 & T5)]; [rewrite X; lia|rewrite Y; lia].
         - apply Nb'. reflexivity. }
       assert (Hr : forall j, blk_memP r' j -> 0 <= j < K).
       { intros j Hj. apply Hmem in Hj. destruct Hj as [->|Hj]; [lia|apply J3, J2, Hj]. }
-      destruct (blk_check_all_in r' ((L + c - 1) / c)) eqn:Eall.
-      + pose proof (proj1 (rs_all_in_iff _ Hi' Hne' Hr) Eall) as Eall'. clear Eall. rename Eall' into Eall.
-        split; [apply (rs_complete _ _ Gb' Eall)|]. split; [reflexivity|].
-        intros j Hj. specialize (Eall j Hj). apply Hmem in Eall. cbn [In].
-        destruct Eall as [->|X]; [left; reflexivity|right; apply J2; exact X].
+      assert (He' : forall j, blk_memP r' j -> rs_end j <= total').
+      { intros j Hj. apply Hmem in Hj. destruct Hj as [->|Hj]; [lia|]. apply J4e in Hj. lia. }
+      assert (Hlast : blk_memP r' (K - 1) -> total' = L).
+      { intros X. apply He' in X. rewrite rs_end_last in X. lia. }
+      set (allin := blk_check_all_in r' ((total' + c - 1) / c)).
+      destruct (if m =? 1 then br_nomore s0 && allin else allin) eqn:Ecomp.
+      + assert (Et : total' = L /\ allin = true).
+        { destruct (m =? 1) eqn:Em.
+          - apply andb_true_iff in Ecomp. destruct Ecomp as (N1 & N2). split; [|exact N2].
+            apply Hlast, Hmem. right. apply J4n, N1.
+          - split; [|exact Ecomp]. apply Hlast, Hmem. left. symmetry. apply Hm0. reflexivity. }
+        destruct Et as (Et & Eall). unfold allin in Eall. rewrite Et in Eall.
+        pose proof (proj1 (rs_all_in_iff _ Hi' Hne' Hr) Eall) as Eall'. rewrite Et.
+        split; [apply (rs_complete _ _ Gb' Eall')|]. split; [reflexivity|].
+        intros j Hj. specialize (Eall' j Hj). apply Hmem in Eall'. cbn [In].
+        destruct Eall' as [->|X]; [left; reflexivity|right; apply J2; exact X].
       + split.
-        2:{ intros Hall. assert (blk_check_all_in r' ((L + c - 1) / c) = true); [|congruence].
-            apply (rs_all_in_iff _ Hi' Hne' Hr). intros j Hj. apply Hmem.
-            destruct (Hall j Hj) as [<-|X]; [left; reflexivity|right; apply J2; exact X]. }
-        cbn [rs_srv_inv br_rec br_total br_body].
+        2:{ intros Hall.
+            assert (Hall' : forall j, 0 <= j < K -> blk_memP r' j).
+            { intros j Hj. apply Hmem. destruct (Hall j Hj) as [<-|X]; [left; reflexivity|right; apply J2; exact X]. }
+            assert (Et : total' = L) by (apply Hlast, Hall'; lia).
+            assert (Eall : allin = true).
+            { unfold allin. rewrite Et. apply (rs_all_in_iff _ Hi' Hne' Hr). exact Hall'. }
+            rewrite Eall in Ecomp. destruct (m =? 1) eqn:Em; [|discriminate].
+            rewrite andb_true_r in Ecomp.
+            assert (X : blk_memP r' (K - 1)) by (apply Hall'; lia). apply Hmem in X.
+            destruct X as [X|X]; [specialize (Hm1 eq_refl); lia|].
+            assert (br_nomore s0 = true) by (apply J4n, X). congruence. }
+        cbn [rs_srv_inv br_rec br_total br_body br_nomore].
         split; [exact Hi'|]. split; [exact Hne'|]. split.
         { intros j. rewrite Hmem, J2. cbn [In]. intuition. }
         split. { intros j [<-|X]; [lia|apply J3; exact X]. }
-        split; [reflexivity|]. exists b'. auto.
+        split; [exact T3|]. split; [lia|]. split; [exact He'|]. split.
+        { destruct (m =? 1) eqn:Em.
+          - rewrite J4n, Hmem. specialize (Hm1 eq_refl). intuition lia.
+          - split; [intros _; apply Hmem; left; symmetry; apply Hm0; reflexivity|reflexivity]. }
+        exists b'. auto.
   Qed.
 
   Definition rs_ok_out (o : blk_out) : Prop :=
@@ -285,17 +361,18 @@ Section Reassembly.
     unfold blk_count_deliveries. cbn [filter]. destruct (blk_is_delivery o); [rewrite len_cons|]; lia.
   Qed.
 
-  Lemma rs_srv_run l : rs_arrivals (Some L) l -> forall st seen, rs_srv_inv st seen ->
+  Lemma rs_srv_run size l : size = None \/ size = Some L -> rs_arrivals size l ->
+    forall st seen, rs_srv_inv size st seen ->
     Forall rs_ok_out (blk_run (blk_srv_step junk) st l) /\
     forall j, 0 <= j < K ->
       blk_count_deliveries (blk_run (blk_srv_step junk) st l)
       <= blk_count_num j l + (if existsb (Z.eqb j) seen then 1 else 0).
   Proof.
-    induction 1 as [|a l (k & Hk & ->) Hl IH]; intros st seen Hinv.
+    intros Hsz. induction 1 as [|a l (k & Hk & ->) Hl IH]; intros st seen Hinv.
     - cbn [blk_run]. split; [constructor|]. intros j Hj. unfold blk_count_deliveries, blk_count_num.
       cbn. destruct (existsb _ _); lia.
-    - cbn [blk_run]. pose proof (rs_srv_step st seen k Hinv Hk) as S.
-      destruct (blk_srv_step junk st (blk_arr_of body szx (Some L) k)) as [st' o].
+    - cbn [blk_run]. pose proof (rs_srv_step size st seen k Hsz Hinv Hk) as S.
+      destruct (blk_srv_step junk st (blk_arr_of body szx size k)) as [st' o].
       assert (Ex : forall j, (if existsb (Z.eqb j) (k :: seen) then 1 else 0) <=
                         (if k =? j then 1 else 0) + (if existsb (Z.eqb j) seen then 1 else 0)).
       { intros j. cbn [existsb]. destruct (j =? k) eqn:E1; destruct (k =? j) eqn:E2; try lia;
@@ -328,13 +405,13 @@ Section Reassembly.
         assert (k = j) by lia. subst j. rewrite Z.eqb_refl. lia.
   Qed.
 
-  (* the reassembly theorem, server side *)
-  Theorem blk_srv_reassembly l : rs_arrivals (Some L) l ->
+  (* the reassembly theorem, server side; the Size1 option may be absent or exact *)
+  Theorem blk_srv_reassembly size l : size = None \/ size = Some L -> rs_arrivals size l ->
     Forall rs_ok_out (blk_run (blk_srv_step junk) None l) /\
     forall j, 0 <= j < K ->
       blk_count_deliveries (blk_run (blk_srv_step junk) None l) <= blk_count_num j l.
   Proof.
-    intros Hl. destruct (rs_srv_run l Hl None [] eq_refl) as (A & B). split; [exact A|].
+    intros Hsz Hl. destruct (rs_srv_run size l Hsz Hl None [] eq_refl) as (A & B). split; [exact A|].
     intros j Hj. specialize (B j Hj). cbn [existsb] in B. lia.
   Qed.
 
@@ -392,7 +469,7 @@ Section Reassembly.
     destruct Hs2 as (T1 & T2 & T3 & T4).
     set (s0 := match st with
                | Some s => s
-               | None => {| br_rec := []; br_total := size2; br_body := None |}
+               | None => {| br_rec := []; br_total := size2; br_body := None; br_nomore := false |}
                end).
     assert (I0 : blk_inv (br_rec s0) /\ (forall j, blk_memP (br_rec s0) j <-> In j seen) /\
                  (forall j, In j seen -> 0 <= j < K) /\
@@ -445,13 +522,14 @@ Section Reassembly.
         fold d in Eb'. rewrite Eb'.
         assert (Lsz : size = Some L -> L <= len b').
         { intros Z0. destruct (br_body s0) as [b|] eqn:Eb.
-          - destruct (Mb' b eq_refl) as (X & _). destruct (J5 b eq_refl) as (_ & Y).
+          - destruct (Mb' b eq_refl) as (X & _ & _). destruct (J5 b eq_refl) as (_ & Y).
             specialize (Y Z0). lia.
           - rewrite (Nb' eq_refl). rewrite (T2 Z0). lia. }
         assert (Hr : forall j, blk_memP r' j -> 0 <= j < K).
         { intros j Hj. apply Hmem in Hj. destruct Hj as [->|Hj]; [lia|apply J3, J2, Hj]. }
         assert (Cont : rs_cli_inv size
-                  (Some {| br_rec := r'; br_total := total'; br_body := Some b' |}) (k :: seen)).
+                  (Some {| br_rec := r'; br_total := total'; br_body := Some b'; br_nomore := false |})
+                  (k :: seen)).
         { cbn [rs_cli_inv br_rec br_total br_body].
           split; [exact Hi'|]. split; [exact Hne'|]. split.
           { intros j. rewrite Hmem, J2. cbn [In]. intuition. }
@@ -556,19 +634,20 @@ Section Reassembly.
     blk_range_from j (K - j) = j :: blk_range_from (j + 1) (K - (j + 1)).
   Proof. intros. rewrite blk_range_from_cons by lia. f_equal. f_equal. lia. Qed.
 
-  Lemma rs_srv_inorder_from : 2 <= K -> forall (n : nat) j st seen,
+  Lemma rs_srv_inorder_from size : size = None \/ size = Some L -> 2 <= K ->
+    forall (n : nat) j st seen,
     Z.of_nat (S n) = K - j -> 0 <= j ->
-    rs_srv_inv st seen -> (forall x, In x seen <-> 0 <= x < j) ->
+    rs_srv_inv size st seen -> (forall x, In x seen <-> 0 <= x < j) ->
     blk_run (blk_srv_step junk) st
-      (map (blk_arr_of body szx (Some L)) (blk_range_from j (K - j)))
+      (map (blk_arr_of body szx size) (blk_range_from j (K - j)))
     = repeat BoContinue n ++ [BoDeliver body].
   Proof.
-    intros HK. induction n as [|n IH]; intros j st seen Hn Hj Hinv Hseen.
+    intros Hsz HK. induction n as [|n IH]; intros j st seen Hn Hj Hinv Hseen.
     - assert (j = K - 1) by lia. subst j.
       rewrite rs_range_from_step by lia. replace (K - (K - 1 + 1)) with 0 by lia.
       cbn [blk_range_from Z.to_nat seq map blk_run repeat app].
-      pose proof (rs_srv_step st seen (K - 1) Hinv ltac:(lia)) as S.
-      destruct (blk_srv_step junk st (blk_arr_of body szx (Some L) (K - 1))) as [st' o].
+      pose proof (rs_srv_step size st seen (K - 1) Hsz Hinv ltac:(lia)) as S.
+      destruct (blk_srv_step junk st (blk_arr_of body szx size (K - 1))) as [st' o].
       destruct o as [| | |d|].
       + destruct S as (_ & S). exfalso. apply S. intros x Hx. cbn [In].
         destruct (Z.eq_dec x (K - 1)); [left; lia|right; apply Hseen; lia].
@@ -583,8 +662,8 @@ Section Reassembly.
       + destruct S as (S & _). lia.
     - assert (Hjk : 0 <= j < K - 1) by lia.
       rewrite rs_range_from_step by lia. cbn [map blk_run repeat app].
-      pose proof (rs_srv_step st seen j Hinv ltac:(lia)) as S.
-      destruct (blk_srv_step junk st (blk_arr_of body szx (Some L) j)) as [st' o].
+      pose proof (rs_srv_step size st seen j Hsz Hinv ltac:(lia)) as S.
+      destruct (blk_srv_step junk st (blk_arr_of body szx size j)) as [st' o].
       destruct o as [| | |d|].
       + destruct S as (S & _). f_equal.
         apply (IH (j + 1) st' (j :: seen)); [lia|lia|exact S|].
@@ -604,12 +683,12 @@ Section Reassembly.
   Qed.
 
   (* every block once, in order: K-1 continuations and then exactly one delivery of the body *)
-  Theorem blk_srv_inorder : 2 <= K ->
-    blk_run (blk_srv_step junk) None (map (blk_arr_of body szx (Some L)) (blk_range K))
+  Theorem blk_srv_inorder size : size = None \/ size = Some L -> 2 <= K ->
+    blk_run (blk_srv_step junk) None (map (blk_arr_of body szx size) (blk_range K))
     = repeat BoContinue (Z.to_nat (K - 1)) ++ [BoDeliver body].
   Proof.
-    intros HK. rewrite <- blk_range_from_0. replace K with (K - 0) at 1 by lia.
-    apply (rs_srv_inorder_from HK (Z.to_nat (K - 1)) 0 None []); [lia|lia|reflexivity|].
+    intros Hsz HK. rewrite <- blk_range_from_0. replace K with (K - 0) at 1 by lia.
+    apply (rs_srv_inorder_from size Hsz HK (Z.to_nat (K - 1)) 0 None []); [lia|lia|reflexivity|].
     intros x. cbn [In]. lia.
   Qed.
 
